@@ -46,4 +46,9 @@ TEXT = {
   "level_text": "Router programs (mapper x SubRoute tree x registrations from a library of 9 controller structs / 11 functions with the documented identifier shapes and deliberate collisions x unknown handlers) are built on a real peer; every returned name, its twin in the other namespace, near-misses and random names are requested and the set of handlers that ran is compared with the model after every request and at quiescence; predicted collisions must be reported. The mapper is checked literally against the documented table, against word-template instances of it, and for determinism/totality on arbitrary identifier strings.",
   "level_note": "Expected names use the public mapper functions; handler programs are limited to the library.",
  },
+ "C20": {
+  "technique": "property-based differential testing: recycled object vs fresh object under generated op histories (rapid)",
+  "level_text": "For messages, metadata containers and pooled sockets a generated dirtying history is followed by the documented recycle path and a generated next-user history that is applied to the recycled and to a fresh object; every public getter and the packed bytes must agree after every step. For handler contexts (black box) generated dirty requests (reply metadata, codec, pipe, swap entries, error status, large bodies, pushes in both directions) precede a probe request whose handler records everything it can observe and whose reply frame is captured from the wire.",
+  "level_note": "Pool identity is not guaranteed by sync.Pool; reuse is measured and reported, and the reset functions are also driven directly.",
+ },
 }
